@@ -9,6 +9,7 @@ from harness.fx import Power, Sample, Broadcast
 from symx.runner import Instance
 
 from datetime import timedelta
+from frequenz.channels import Receiver as _Receiver, ReceiverError as _ReceiverError
 from frequenz.sdk.timeseries.formula_engine._formula_engine import FormulaBuilder
 from frequenz.sdk.timeseries.formula_engine._formula_steps import FallbackMetricFetcher
 
@@ -51,6 +52,23 @@ class StubGenerator:
         return e
 
 
+class ErrRx(_Receiver):
+    """Wraps the primary receiver: once err_state['on'] is set every receive() raises a plain ReceiverError."""
+
+    def __init__(self, inner, err_state):
+        self._inner, self._st = inner, err_state
+
+    async def ready(self):
+        if self._st["on"]:
+            return True
+        return await self._inner.ready()
+
+    def consume(self):
+        if self._st["on"]:
+            raise _ReceiverError("primary stream failed", self)
+        return self._inner.consume()
+
+
 class FakeFallback(FallbackMetricFetcher):
     def __init__(self, chan):
         super().__init__()
@@ -89,6 +107,7 @@ def make(K, second_term=False, reach=False, mode="lockstep", real_fetcher=False)
     def fn(ex):
         pvalid = [ex.flag(f"pvalid{k}") for k in range(KT)]
         fvalid = [ex.flag(f"fvalid{k}") for k in range(KT)] + [True, True]   # (+2: the fallback stream goes on after the last primary sample)
+        first_missing = next((k for k in range(KT) if not pvalid[k]), None)
         fb_first = [ex.flag(f"fb_first{k}") if mode == "lockstep" else True for k in range(KT)]
 
         def fallback_available(j, f):
@@ -105,6 +124,11 @@ def make(K, second_term=False, reach=False, mode="lockstep", real_fetcher=False)
         close_at = ex.choice("close_at", KT + 1) if mode == "lockstep" else KT  # KT = never closed; c: the primary delivers samples 0..c-1 and is then closed
         # closed within round c (in the order given by fb_first) or between rounds c-1 and c, before any sample of round c is sent
         close_early = ex.flag("closed_between_rounds") if (mode == "lockstep" and close_at < KT) else False
+        # the primary ends by being closed (ReceiverStoppedError) or by raising a plain ReceiverError on every receive from then on
+        errors = ex.flag("primary_errors_instead_of_closing") if (mode == "lockstep" and close_at < KT) else False
+        err_state = {"on": False}
+        nan_mode = ex.choice("missing_encoding", 3) if first_missing is not None else 0   # 0: None, 1: every missing sample is NaN-valued, 2: only the first one
+        as_nan = [(not pvalid[k]) and (nan_mode == 1 or (nan_mode == 2 and k == first_missing)) for k in range(KT)]
         pv = [ex.real(f"p{k}") for k in range(KT)]
         fv = [ex.real(f"f{k}") for k in range(KT)] + [0.0, 0.0]
         sv = [ex.real(f"s{k}") for k in range(KT)] if second_term else None
@@ -116,18 +140,29 @@ def make(K, second_term=False, reach=False, mode="lockstep", real_fetcher=False)
             gen = StubGenerator(fc)
             fb = FallbackFormulaMetricFetcher(gen) if real_fetcher else FakeFallback(fc)
             b = FormulaBuilder("f", Power.from_watts)
-            b.push_metric("m", pc.new_receiver(limit=100), nones_are_zeros=False, fallback=fb)
+            prx = pc.new_receiver(limit=100)
+            if errors:
+                prx = ErrRx(prx, err_state)
+            b.push_metric("m", prx, nones_are_zeros=False, fallback=fb)
             if second_term:
                 b.push_oper("+")
                 b.push_metric("s", sc.new_receiver(limit=100), nones_are_zeros=False)
             eng = b.build()
             rx = eng.new_receiver(max_size=100)
             ps, fs, ss = pc.new_sender(), fc.new_sender(), sc.new_sender()
+            async def close_primary():
+                if errors:   # the receiver raises a plain ReceiverError from now on (the stream is not closed)
+                    err_state["on"] = True
+                    await ps.send(Sample(TS, None))   # wakes a pending receive(), which then raises
+                else:
+                    await pc.close()
+
             async def send_p(k):
                 if k < close_at:
-                    await ps.send(Sample(TS + k * PER, Power.from_watts(pv[k]) if pvalid[k] else None))
+                    missing = Power.from_watts(float("nan")) if as_nan[k] else None   # 'missing' arrives as None or as a NaN-valued sample
+                    await ps.send(Sample(TS + k * PER, Power.from_watts(pv[k]) if pvalid[k] else missing))
                 elif k == close_at and not close_early:
-                    await pc.close()
+                    await close_primary()
 
             async def send_f(k):
                 if k < KT + 2:
@@ -156,7 +191,7 @@ def make(K, second_term=False, reach=False, mode="lockstep", real_fetcher=False)
                 for k in range(KT):
                     if close_early and k == close_at:
                         # the primary stream is closed BETWEEN two rounds: the engine handles the closure before any sample of round k exists
-                        await pc.close()
+                        await close_primary()
                         await asyncio.sleep(0.05)
                     await send_s(k)
                     if mode == "fb_ahead":
